@@ -245,8 +245,10 @@ Definition complete (leaf : str -> val -> bool) (t : ty) (v : val) : bool :=
   | _ => is_null v || complete_nn leaf t v
   end.
 
-(** the opaque TS type text standing for a custom scalar [n] (cannot collide with string/number/boolean) *)
-Definition atom_of (n : str) : str := s "scalar:" ++ n.
+(** the opaque TS type text standing for a custom scalar [n]: the harness CONFIGURES the operation-output
+    type of every custom scalar [n] as the (global, undeclared) TypeScript identifier [Scalar_n]; it cannot
+    collide with string/number/boolean *)
+Definition atom_of (n : str) : str := s "Scalar_" ++ n.
 
 Definition same_keys (a b : list str) : bool :=
   forallb (fun k => smem k b) a && forallb (fun k => smem k a) b.
@@ -521,15 +523,19 @@ Definition is_nil' {A} (l : list A) : bool := match l with [] => true | _ => fal
 Definition named_of (t : ty) : str := iname (ty_unwrapped t).
 
 (** [merge_safe]: whenever several fields with one response key and sub-selections are collected
-    into one branch, only the first one's sub-selection uses boolean variables (then pairing branches
-    by type name in merge_selection_trees is exact); recursively for the merged sub-selections *)
-Fixpoint merge_safe (S : tsdoc) (F : list fragdef) (cf : nat) (fuel : nat) (T : str) (sels : list selection)
+    into one branch, only the FIRST one's sub-selection — first in the order in which the generator merges
+    their trees — uses boolean variables (then pairing branches by type name in merge_selection_trees is
+    exact); recursively for the merged sub-selections.  The generator builds one tree per field and merges the
+    trees, so the merge order of the fields found in the sub-selections [s1; s2; ...] of same-key fields is
+    (fields of s1 in its own order) then (fields of s2) ... — NOT the order of the concatenated selection set;
+    the scope is therefore a list of SEGMENTS. *)
+Fixpoint merge_safe_segs (S : tsdoc) (F : list fragdef) (cf : nat) (fuel : nat) (T : str) (segs : list (list selection))
   {struct fuel} : bool :=
   match fuel with
   | O => false
   | Datatypes.S f =>
       forallb (fun o =>
-        let es := scope_fields S F o cf sels in
+        let es := flat_map (scope_fields S F o cf) segs in
         forallb (fun k =>
           let g := filter (fun e => negb (is_nil' (ce_sub e))) (group es k) in
           match g with
@@ -537,11 +543,13 @@ Fixpoint merge_safe (S : tsdoc) (F : list fragdef) (cf : nat) (fuel : nat) (T : 
           | _ :: rest =>
               forallb (fun e => is_nil' (local_vars cf F (ce_sub e))) rest
               && match sp_field_type S o (name_of es k) with
-                 | Some t => merge_safe S F cf f (named_of t) (flat_map ce_sub g)
+                 | Some t => merge_safe_segs S F cf f (named_of t) (map ce_sub g)
                  | None => true
                  end
           end) (keys_of es)) (sp_possible S T)
   end.
+Definition merge_safe (S : tsdoc) (F : list fragdef) (cf : nat) (fuel : nat) (T : str) (sels : list selection) : bool :=
+  merge_safe_segs S F cf fuel T [sels].
 
 (** no aliased [__typename] anywhere below (an aliased [__typename] is typed [String | null]) *)
 Fixpoint sel_typename_alias_free (x : selection) : bool :=
